@@ -7,7 +7,7 @@
    allowed) whose engines behave as behs (read to EOF | read to EOF then fail |
    fail after k bytes | return success unread).  Both polymorphic in the bytes. *)
 From Coq Require Import List Permutation.
-From Verif Require Import Xfer.Chunks Xfer.ChunksProofs Xfer.Pipeline Xfer.PipelineProofs.
+From Verif Require Import Xfer.Chunks Xfer.ChunksProofs Xfer.Pipeline Xfer.PipelineProofs Xfer.Steps Xfer.StepsProofs Xfer.StepsBridge.
 Import ListNotations.
 
 (* chunking round trip, any content (the empty file included), any positive chunk size:
@@ -65,6 +65,40 @@ Theorem C29_termination : forall {A} size (content : list A) targets behs,
   finished (send_file size content targets behs) = true.
 Proof. exact @terminates. Qed.
 Print Assumptions C29_termination.
+
+(* ... and in model steps, for ALL schedules of the goroutines (dispatcher, one
+   sender and one engine goroutine per target, buffers of 10, io.Pipe rendezvous,
+   reader closed after the copy): from the initial state, any execution of k steps
+   (1) has k <= mu(init) -- every schedule terminates, with an explicit bound;
+   (2) ends in a state that is finished or can still move -- no deadlock, whatever
+       the engines do (read to EOF, give up after any number of bytes, never start);
+   (3) if finished: every target reported exactly once and its engine read exactly
+       the whole content / its first k bytes *)
+Theorem C29_all_schedules : forall {A} (chunks : list (list A)) (ts : list target) (behs : list beh),
+  chunks <> [] ->
+  let n := length ts in
+  let want := fun i => want_of_target behs (nth i ts None) in
+  forall k s, steps A n want k (init A n chunks) s ->
+    k <= mu A n (init A n chunks) /\
+    (dst A s <> DFinished A -> exists s', step A n want s s') /\
+    (dst A s = DFinished A ->
+       forall i, i < n ->
+         nmsg A (tg A s i) = 1 /\
+         got A (tg A s i) = reads_spec A (want i) (concat chunks)).
+Proof. exact @transfer_all_schedules. Qed.
+Print Assumptions C29_all_schedules.
+
+(* what an engine has read when the network finished is what the dataflow model
+   (the one the correspondence harness runs against the code) computes *)
+Theorem C29_steps_match_dataflow : forall {A} (chunks : list (list A)) (ts : list target) (behs : list beh),
+  chunks <> [] ->
+  let n := length ts in
+  let want := fun i => want_of_target behs (nth i ts None) in
+  forall k s, steps A n want k (init A n chunks) s -> dst A s = DFinished A ->
+  forall i o, i < n -> nth i ts None = Some o ->
+    got A (tg A s i) = engine_reads (beh_of behs o) chunks.
+Proof. exact @transfer_matches_dataflow. Qed.
+Print Assumptions C29_steps_match_dataflow.
 
 (* the unrepaired network: finished when every target existed and every engine
    read to EOF, but blocked for ever on a missing target or an aborting engine
